@@ -52,8 +52,18 @@ def _mode_edge_ok(run, fn, g, mode_var, value, platform=None):
                 if m is None:
                     return None
                 return (m == value) if isinstance(op, ast.Eq) else (m != value)
-            if isinstance(op, (ast.In, ast.NotIn)) and isinstance(e.comparators[0], (ast.List, ast.Tuple)):
-                ms = [_mode_member(run, x, fn) for x in e.comparators[0].elts]
+            if isinstance(op, (ast.In, ast.NotIn)):
+                if isinstance(e.comparators[0], (ast.List, ast.Tuple, ast.Set)):
+                    ms = [_mode_member(run, x, fn) for x in e.comparators[0].elts]
+                else:
+                    # a named list of modes (module / class constant)
+                    try:
+                        cv = P.const_eval(e.comparators[0], fn.module, cls=fn.cls)
+                    except (Unknown, AnalysisError):
+                        return None
+                    if not isinstance(cv, (list, tuple, set, frozenset)):
+                        return None
+                    ms = [x.name if isinstance(x, EnumMember) and x.cls.name == "_Mode" else None for x in cv]
                 if any(m is None for m in ms):
                     return None
                 r = value in ms
